@@ -622,6 +622,8 @@ def dispatch(func, args, kwargs):
         raise EngineGap("non-aten operator %s" % func)
     name = _packet_name(func)
     OPS_SEEN[name] = OPS_SEEN.get(name, 0) + 1
+    if T.CTX is not None:
+        T.CTX.watchdog()
 
     # every tensor becomes symbolic; SymScalars become 0-d tensors / elements
     def conv(a):
